@@ -3,7 +3,7 @@
 # (create it first: git -C /repo worktree add --detach /tmp/mut/verify HEAD; remove it afterwards)
 # (1) demo fails with the mutant (2) full suite passes with the mutant (3) demo passes without it
 set -u
-ID="$1"; M="$2"; S=/verif/seeded/$ID-$M; W=/tmp/mut/verify
+ID="$1"; M="$2"; S=/verif/seeded/$ID-$M; W=${W:-/tmp/mut/verify}
 cd $W || exit 9
 git checkout -q -- . ; git clean -fdq tests/ 2>/dev/null
 git apply "$S/patch.diff" || { echo "$ID/$M APPLY-FAILED"; exit 8; }
